@@ -249,13 +249,21 @@ package system
 //@ func getIPv6Autoconf
 //@   assigns brk
 //@   ensures E1 [C11]: result1 == nil ==> result0 == sysctlOn(ghost.files, iface, "autoconf")
+// The error a sysctl write reports is the operating system's: it fails exactly
+// when the write failed and keeps its permission-denied / not-exist class, which
+// is what the Dialer's tolerance of those two failures is stated over (C11).
+//@ ghost var oserr Iface
+//@ macro sameOSClass(e, o) = (e == nil) == (o == nil) && errIs(e, global("os.ErrPermission")) == errIs(o, global("os.ErrPermission")) && errIs(e, global("os.ErrNotExist")) == errIs(o, global("os.ErrNotExist"))
 //@ func sysctlEnable
-//@   assigns brk, ghost.wrotePath, ghost.wroteData, ghost.files
+//@   assigns brk, ghost.wrotePath, ghost.wroteData, ghost.files, ghost.oserr
 //@   at call os.WriteFile(wn, wd, wp): assert W1 [C11]: wn == sysctlPath(iface, key) && bytesStrOf(wd) == ite(enable, "1", "0")
+//@   at call os.WriteFile(wn2, wd2, wp2) (we): ghost.oserr = we
 //@   ensures E1 [C11]: ghost.wrotePath == sysctlPath(iface, key) && ghost.wroteData == ite(enable, "1", "0")
+//@   ensures E2 [C11]: sameOSClass(result, ghost.oserr)
 //@ func setIPv6Autoconf
-//@   assigns brk, ghost.wrotePath, ghost.wroteData, ghost.files
+//@   assigns brk, ghost.wrotePath, ghost.wroteData, ghost.files, ghost.oserr
 //@   ensures E1 [C11]: ghost.wrotePath == sysctlPath(iface, "autoconf") && ghost.wroteData == ite(enable, "1", "0")
+//@   ensures E2 [C11]: sameOSClass(result, ghost.oserr)
 
 // The production State: each method is the corresponding sysctl.
 //@ func (systemState).IPv6Forwarding
@@ -268,5 +276,6 @@ package system
 //@   assigns brk
 //@   ensures E1 [C11]: result1 == nil ==> result0 == sysctlOn(ghost.files, iface, "autoconf")
 //@ func (systemState).SetIPv6Autoconf
-//@   assigns brk, ghost.wrotePath, ghost.wroteData, ghost.files
+//@   assigns brk, ghost.wrotePath, ghost.wroteData, ghost.files, ghost.oserr
 //@   ensures E1 [C11]: ghost.wrotePath == sysctlPath(iface, "autoconf") && ghost.wroteData == ite(enable, "1", "0")
+//@   ensures E2 [C11]: sameOSClass(result, ghost.oserr)
